@@ -129,7 +129,7 @@ RE_DEC = re.compile(r"Runtime decision procedure: ([0-9.e+-]+)s")
 RE_STEPS = re.compile(r"size of program expression: (\d+) steps")
 RE_VCC = re.compile(r"Generated (\d+) VCC\(s\), (\d+) remaining after simplification")
 RE_VARS = re.compile(r"(\d+) variables, (\d+) clauses")
-RE_CHECK = re.compile(r"^Check (\d+): (\S+)\n\t - Status: (\S+)\n\t - Description: \"(.*)\"\n(?:\t - Location: (.*)\n)?", re.M)
+RE_CHECK = re.compile(r"^Check (\d+): (.+)\n\t - Status: (\S+)\n\t - Description: \"(.*)\"\n(?:\t - Location: (.*)\n)?", re.M)
 
 
 def parse_output(out):
@@ -227,6 +227,8 @@ def run_job(group, harness, mode="full", timeout_s=600, mem_gb=12, unwind=None, 
     cmd = ["cargo", "kani", "--harness", harness, "--exact", "--target-dir", tdir] + flags
     if mode == "lean":
         cmd += LEAN_FLAGS
+    elif mode == "nomem":
+        cmd += ["--no-memory-safety-checks"]
     if unwind:
         cmd += ["--default-unwind", str(unwind)]
     if playback:
